@@ -71,6 +71,10 @@ def scale(ctx, nquick, nthorough, ops=None, iface=False, family=None, env=None):
     if ops:
         bs = [b for b in bs if any(s["op"] in ops for s in b)]
     batch = None
+    if iface:
+        # goom maps one page per interface stub and never unmaps it: a behaviour over 144 targets can leave more than a thousand
+        # mappings behind, and a process may hold about 65 000 (vm.max_map_count): twenty behaviours per process
+        batch = 20
     if env and env.get("VERIF_NOMMAP") == "1":
         # stubs are never given back and the built-in reserve holds about 260 of them: histories that need fewer than 230, one per process
         bs = [b for b in bs if sum(sum(1 for x in s.get("is", []) if x) for s in b if s["op"].startswith("Mock")) < 230]
